@@ -1,0 +1,82 @@
+//go:build verif
+
+package timeout
+
+import (
+	"container/heap"
+	"fmt"
+	"time"
+)
+
+// VerifReset replaces the package state by a fresh one (used to create the wake channel
+// inside a testing/synctest bubble and to vary the pool configuration).
+// Must only be called when nothing is pending and no worker is running.
+func VerifReset(idle time.Duration, maxWorkers int) {
+	ncc := new(callControl)
+	ncc.futures = &futures{}
+	ncc.maxWorkers = maxWorkers
+	ncc.wakeCh = make(chan bool, maxWorkers)
+	ncc.idleTimeout = idle
+	heap.Init(ncc.futures)
+	cc = ncc
+}
+
+// VerifSetIdle changes the idle timeout under the package lock.
+func VerifSetIdle(idle time.Duration) {
+	cc.lock.Lock()
+	cc.idleTimeout = idle
+	cc.lock.Unlock()
+}
+
+// VerifState returns the worker counter and the number of pending futures under the package lock.
+func VerifState() (workers, pending int) {
+	cc.lock.Lock()
+	defer cc.lock.Unlock()
+	return cc.watchers, cc.futures.Len()
+}
+
+// VerifCheckHeap checks, under the package lock, that every queued future knows its slot, that the
+// heap order holds and that pending work implies a worker.
+func VerifCheckHeap() error {
+	cc.lock.Lock()
+	defer cc.lock.Unlock()
+	fs := *cc.futures
+	for i, fu := range fs {
+		if fu == nil {
+			return fmt.Errorf("slot %d is nil", i)
+		}
+		if fu.idx != i {
+			return fmt.Errorf("future in slot %d has idx=%d", i, fu.idx)
+		}
+		if fu.f == nil {
+			return fmt.Errorf("future in slot %d has no function (cancelled but queued)", i)
+		}
+		if i > 0 {
+			p := (i - 1) / 2
+			if fs[i].fireT.Before(fs[p].fireT) {
+				return fmt.Errorf("heap order broken between slot %d and its parent %d", i, p)
+			}
+		}
+	}
+	if len(fs) > 0 && cc.watchers < 1 {
+		return fmt.Errorf("%d futures pending but %d workers", len(fs), cc.watchers)
+	}
+	if cc.watchers < 0 || cc.watchers > cc.maxWorkers {
+		return fmt.Errorf("worker counter %d outside [0,%d]", cc.watchers, cc.maxWorkers)
+	}
+	return nil
+}
+
+// VerifDrain empties the queue without running anything (only to shut a harness down after a
+// residue has already been reported). It returns the number of futures dropped.
+func VerifDrain() int {
+	cc.lock.Lock()
+	defer cc.lock.Unlock()
+	n := cc.futures.Len()
+	for cc.futures.Len() > 0 {
+		fu := heap.Pop(cc.futures).(*future)
+		fu.f = nil
+	}
+	cc.notifyWatcher()
+	return n
+}
